@@ -950,8 +950,12 @@ func (c *converter) applyBag(js *lib.Schema, bag map[string]any) {
 		}
 	}
 
-	// Table-driven simple setters to minimize reflection and branching.
-	for k, v := range bag {
+	// Table-driven simple setters to minimize reflection and branching. The keys are visited
+	// in sorted order: several keys assign the same keyword (minLength/minSize,
+	// maxLength/maxSize, contentMediaType/mime), so with both present the result would
+	// otherwise depend on map iteration order. The later key (minSize, maxSize, mime) wins.
+	for _, k := range slices.Sorted(maps.Keys(bag)) {
+		v := bag[k]
 		switch k {
 		case "minLength":
 			if f, ok := toFloat(v); ok {
